@@ -150,6 +150,7 @@ Proof.
   intros S [[po Hp] [r Hn]].
   destruct e; simpl in S; try discriminate; simpl.
   - eexists; split; [reflexivity | split; eauto].
+  - rewrite Hn. eexists; split; [reflexivity | split; simpl; eauto].
   - eexists; split; [reflexivity | split; simpl; eauto].
   - eexists; split; [reflexivity | split; simpl; eauto].
   - rewrite Hn. destruct r as [ps|].
